@@ -684,6 +684,9 @@ func c13Exec(x *hysim.Run) {
 			}
 		}
 	}
+	if al := x.WaitTasks(2 * time.Second); len(al) != 0 {
+		x.Violate("task-leak", "tasks still alive 2s after Close: %v", al)
+	}
 }
 
 // ------------------------------------------------------------------ history check (python)
